@@ -46,6 +46,14 @@ SPECIES = {
     "CH3OH": ({"C": 1, "H": 4, "O": 1}, 0),
     "HCOOH": ({"C": 1, "H": 2, "O": 2}, 0),
     "#CH3OH": ({"C": 1, "H": 4, "O": 1}, 0),
+    # more than nine (and more than ten) atoms of one element in a molecule
+    "C6H5": ({"C": 6, "H": 5}, 0),
+    "C12H10": ({"C": 12, "H": 10}, 0),
+    "C24H12": ({"C": 24, "H": 12}, 0),
+    "C11": ({"C": 11}, 0),
+    "C12": ({"C": 12}, 0),
+    "HC11N": ({"H": 1, "C": 11, "N": 1}, 0),
+    "CN": ({"C": 1, "N": 1}, 0),
     # dust grains carry charge like any other species (recombination / electron capture on grains)
     "GRAIN0": ({"GRAIN": 1}, 0),
     "GRAIN-": ({"GRAIN": 1}, -1),
@@ -94,7 +102,7 @@ def cases(tier):
         singles = balanced_reactions(QUICK_SPECIES, 2, 3)
         pool = singles[::max(1, len(singles) // 24)][:24]
     else:
-        singles = balanced_reactions([x for x in SPECIES if not x.startswith("GRAIN") and x not in ("CH3OH", "HCOOH", "#CH3OH", "P", "PH2", "OH2")], 3, 3)
+        singles = balanced_reactions([x for x in SPECIES if not x.startswith("GRAIN") and x not in ("CH3OH", "HCOOH", "#CH3OH", "P", "PH2", "OH2", "C6H5", "C12H10", "C24H12", "C11", "C12", "HC11N", "CN")], 3, 3)
         pool = singles[::max(1, len(singles) // 60)][:60]
     for r, p in singles:
         yield {"reactions": [[r, p]], "family": "single"}
@@ -113,6 +121,10 @@ def cases(tier):
         (["CH3OH"], ["CO", "H2", "H2"]),
         (["HCOOH"], ["CO", "H2", "O"]),
         (["CH3OH"], ["#CH3OH"]),
+        (["C6H5", "C6H5"], ["C12H10"]),
+        (["C12H10", "C12H10"], ["C24H12", "H2", "H2", "H2", "H2"]),
+        (["C11", "C"], ["C12"]),
+        (["HC11N", "C"], ["H", "C11", "CN"]),
         (["e-", "GRAIN0"], ["GRAIN-"]),
         (["H+", "GRAIN-"], ["H", "GRAIN0"]),
         (["H+", "GRAIN0"], ["H", "GRAIN+"]),
